@@ -17,8 +17,8 @@ LEVEL = "exploration"
 RULE = (
     "(a) all 3^8 = 6561 statistics vectors over {1.0, 1.25, 50.0} (used as variance; rolled/reversed copies as skewness/kurtosis) x method "
     "{mad, iqrm} x threshold {1,3,5}: stats_mask == independent float64 re-implementation of double-MAD / IQRM thresholding; for a sub-grid "
-    "of vectors x 6 frequency-range lists x 4 custom functions x all 6 application orders: chan_mask == user | stats | custom and grows "
-    "monotonically; (b) clean_rfi for every gulp 1..N+1, depths {8,32,4,2,1}, default and explicit mask values: masked channels constant "
+    "of vectors x 6 frequency-range lists x 4 custom functions x all 6 application orders, and all 216 three-step histories over 6 steps "
+    "(repeated kinds included): chan_mask == union of everything applied so far and grows monotonically; (b) clean_rfi for every gulp 1..N+1, depths {8,32,4,2,1}, default and explicit mask values: masked channels constant "
     "at the mask value in every sample, all other samples bit-identical; (c) to_file/from_file. Non-trivial = a mask with >= 1 and < all channels"
 )
 ASSUMPTIONS = [
@@ -226,6 +226,42 @@ def _union(shard, ctx, res, only):
                         res.outcome("union/ok")
                         if 0 < prev.sum() < len(prev):
                             res.nontrivial += 1
+    # histories with repeated steps: every prefix must satisfy chan_mask == union of everything applied so far
+    steps = [("mask", "single_exact"), ("mask", "overlapping"), ("method", "mad"), ("method", "iqrm"), ("funcn", "shift"), ("funcn", "neighbours")]
+    for code in vecs[1:3]:
+        v = np.array([VALS[i] for i in code], dtype=np.float32)
+        for hist in itertools.product(range(len(steps)), repeat=3):
+            if only is not None and [code, "history", list(hist)] != only:
+                continue
+            res.evaluations += 1
+            case = {"shard": shard, "inner": [code, "history", list(hist)]}
+            try:
+                m = _mk(hdr, v, np.roll(v, 3), v[::-1].copy(), 3)
+                acc = np.zeros(len(f), dtype=bool)
+                ok = True
+                for k in hist:
+                    kind, arg = steps[k]
+                    if kind == "mask":
+                        m.apply_mask(ranges[arg])
+                        acc = acc | np.asarray(m.user_mask, dtype=bool)
+                    elif kind == "method":
+                        m.apply_method(arg)
+                        acc = acc | np.asarray(m.stats_mask, dtype=bool)
+                    else:
+                        m.apply_funcn(funcs[arg])
+                        acc = acc | np.asarray(m.custom_mask, dtype=bool)
+                    if not np.array_equal(np.asarray(m.chan_mask, dtype=bool), acc):
+                        ok = False
+                        break
+            except Exception as e:  # noqa: BLE001
+                res.violation({"site": "RFIMask", "symptom": f"raised {type(e).__name__}"}, case, repr(e))
+                continue
+            if not ok:
+                res.violation({"site": "RFIMask", "symptom": "chan_mask is not the union of all masks applied so far (channels lost or invented)"}, case,
+                              f"history {[steps[k] for k in hist]}: chan {np.asarray(m.chan_mask).astype(int).tolist()} expected {acc.astype(int).tolist()}")
+                continue
+            res.outcome("union/ok")
+            res.nontrivial += 1
     res.sample({"shard": shard, "inner": [vecs[1], "overlapping", "shift", "mad", ["funcn", "mask", "method"]]}, cap=1)
 
 
